@@ -1,10 +1,32 @@
 import LeaspyVerif.Proto
 import LeaspyVerif.Model.Dag
+import LeaspyVerif.Model.Specs
 open LeaspyVerif LeaspyVerif.Proto LeaspyVerif.Dag
+
+/- names travel as their code points joined by `.` (they may contain blanks, `=`, `;`, non-ASCII letters) -/
+def decName (s : String) : Option String :=
+  (fun (l : List Nat) => String.ofList (l.map Char.ofNat)) <$> (s.splitOn ".").mapM (fun t => t.toNat?)
+def encName (s : String) : String := ".".intercalate (s.toList.map (fun c => toString c.toNat))
+
+def parseOp (s : String) : Option (String × Specs.Def) :=
+  match s.splitOn "~" with
+  | [n, "p"] => do pure (← decName n, .plain)
+  | n :: "l" :: deps => do pure (← decName n, .link (← deps.mapM decName))
+  | [n, "i", m, sd] => do pure (← decName n, .ind (← decName m) (← decName sd))
+  | [n, "o", m, sd] => do pure (← decName n, .pop (← decName m) (← decName sd))
+  | _ => none
+
+/-- the statements one after the other, recording which were refused -/
+def runOps (ops : List (String × Specs.Def)) : Specs.Coll × List Bool :=
+  ops.foldl (fun (acc : Specs.Coll × List Bool) o =>
+    let r := Specs.setItem acc.1 o.1 o.2
+    (r.1, acc.2 ++ [r.2])) (Specs.Coll.empty, [])
 
 /-
 request   build anc=<a,b;c;_;…>       one `;`-separated entry per node (rank in name order): its direct ancestors
 response  ok order=… ch=…;… an=…;…  |  err:input  |  err:value
+request   coll ops=<name~p | name~l~dep~… | name~i~mean~std | name~o~mean~std>|…      `nv[name] = var` statements in order
+response  ok=<1|0 per statement> keys=<iteration order> defs=<name:dep,dep;…>      (definitions in iteration order, dependencies sorted)
 -/
 def handle (line : String) : String :=
   match line.splitOn " " with
@@ -19,6 +41,13 @@ def handle (line : String) : String :=
       | .ok r =>
         let nodes := List.range g.n
         some s!"ok order={fmtList toString r.order} ch={";".intercalate (nodes.map fun i => fmtList toString (r.children i))} an={";".intercalate (nodes.map fun i => fmtList toString (r.ancestors i))}").getD "bad-request"
+  | "coll" :: args =>
+    (do
+      let a ← kv args "ops"
+      let ops ← if a == "-" then some [] else (a.splitOn "|").mapM parseOp
+      let (c, oks) := runOps ops
+      let defs := Specs.definitions c
+      some s!"ok={fmtList fmtBool oks} keys={fmtList encName (Specs.keys c)} defs={";".intercalate (defs.map fun (d : String × List String) => encName d.1 ++ ":" ++ fmtList encName (Specs.sortNames d.2))}").getD "bad-request"
   | _ => "bad-request"
 
 def main : IO Unit := loop handle
